@@ -283,7 +283,13 @@ func (e *Exec) unknownCall(fr *Frame, st *State, ins ssa.Instruction, what strin
 		e.assumed["external function assumed to have no effect on the modelled heap: "+what] = true
 	} else if e.eng.isNoop(what) {
 		e.assumed["synchronisation call treated as no-op (sequential/monitor reading): "+what] = true
-		return Val{}
+		if t, ok := rtyp.(*types.Tuple); ok && t.Len() == 0 {
+			return Val{}
+		}
+		if rtyp == nil {
+			return Val{}
+		}
+		return e.havocVal(st, rtyp, "ret") // TryLock: either outcome
 	} else {
 		e.note("unknown callee (results and heap havocked): " + what)
 		e.havocAll(st)
@@ -619,8 +625,9 @@ func (e *Exec) evalClauseAt(fr *Frame, cl Clause, st *State, results []Val) *Ter
 			if !ok || p.Index >= len(vs) {
 				e.fail("clause %s: %s - that call was not executed before the clause", cl.Label, p.Name)
 			}
-			args = append(args, vs[p.Index])
-			oldArgs = append(oldArgs, vs[p.Index])
+			av := e.onThisPath(fr, fmt.Sprintf("%s:%d", p.File, p.Off), vs[p.Index])
+			args = append(args, av)
+			oldArgs = append(oldArgs, av)
 		case pkCallRes:
 			v, ok := fr.callRes[fmt.Sprintf("%s:%d", p.File, p.Off)]
 			if !ok {
@@ -632,6 +639,7 @@ func (e *Exec) evalClauseAt(fr *Frame, cl Clause, st *State, results []Val) *Ter
 				}
 				v = v.Tup[p.Index-1]
 			}
+			v = e.onThisPath(fr, fmt.Sprintf("%s:%d", p.File, p.Off), v)
 			args = append(args, v)
 			oldArgs = append(oldArgs, v)
 		case pkRangeIdx:
